@@ -210,4 +210,5 @@ func main() {
 	genExpandSites(repo, out)
 	genWithDefaults(repo, out)
 	genListFns(repo, out)
+	genBackupFn(repo, out)
 }
